@@ -1068,6 +1068,17 @@ func (x *vc) globalValue(fr *frame, st *state, g *ssa.Global) (Val, bool) {
 	// initialised by a call to a function under contract: the (immutable) variable satisfies that function's
 	// postconditions, with the parameters bound to the constant arguments of the call
 	if call, ok := init.(*ast.CallExpr); ok {
+		// var ErrX = errors.New("...") : an immutable, non-nil error value of its own (a fresh pointer: distinct from
+		// every other such variable)
+		if sel, ok := call.Fun.(*ast.SelectorExpr); ok {
+			if pk, ok := sel.X.(*ast.Ident); ok && ((pk.Name == "errors" && sel.Sel.Name == "New") || (pk.Name == "fmt" && sel.Sel.Name == "Errorf")) && x.srt.sortOf(et) == sIface {
+				v := x.freshVal("glob_"+g.Name(), et, st)
+				x.assume("true", and(not(eq(app("itag", v.T), "0")), eq(app("ival", v.T), smtInt(int64(600000+len(cache))))))
+				cache[g] = &v
+				x.trusted["const: immutable package variable "+g.Pkg.Pkg.Name()+"."+g.Name()+" holds the non-nil error made by its initialiser (no store outside init found by scan)"] = true
+				return v, true
+			}
+		}
 		if id, ok := call.Fun.(*ast.Ident); ok && (fr == nil || fnKey(fr.fn) != g.Pkg.Pkg.Path()+"."+id.Name) {
 			key := g.Pkg.Pkg.Path() + "." + id.Name
 			fc := x.p.cons.get(key)
